@@ -1699,10 +1699,12 @@ class WriteTool(BaseTool):
                 # TOCTOU protection: recheck base_hash before replace, under an exclusive
                 # advisory lock so that re-check + replace is atomic among cooperating writers
                 # (without it two writers holding the same base_hash could both succeed).
+                # Writers without base_hash take the lock for their replace too: otherwise
+                # their install can land between a CAS writer's re-check and its replace.
                 lock_fd: int | None = None
                 try:
+                    lock_fd = lock_directory_for_cas(path_obj.parent)
                     if base_hash and file_exists:
-                        lock_fd = lock_directory_for_cas(path_obj.parent)
                         with open(target_path, encoding="utf-8") as verify_f:
                             verify_content = verify_f.read()
                         verify_hash = self._compute_hash(verify_content)
